@@ -248,6 +248,14 @@ def exotic_names(rng, x, p=0.25):
     m = {}
     a, b = rng.sample(names, 2)
     m[b] = a + rng.choice([".0", ".output", ".input", ".x.y"])       # b is now "a.<something>"
+    if rng.random() < 0.5:
+        # some nodes get a ONE-character name taken from the letters of another node's (e.g. an Input's) name
+        donors = [n for n in names if len(n) >= 2]
+        for n in names:
+            if n not in m and n != a and donors and rng.random() < 0.4:
+                ch = rng.choice(rng.choice(donors))
+                if ch not in names and ch not in m.values():
+                    m[n] = ch
     for n in names:
         if n not in m and n != a and rng.random() < 0.3:
             m[n] = rng.choice(["{} ", " {}", "{}.", ".{}", "{}\u00e9", "{}.{}"]).format(n, n) if True else n
